@@ -387,15 +387,25 @@ def geo(l):
 
 
 def vtt_group_layouts(nodes):
-    """layout of each WebVTT cue a caption is split into (statement: nodes with different layouts -> separate cues)"""
+    """layout of each WebVTT cue a caption is split into (statement: nodes with different layouts -> separate cues).
+    Copy of Positioning.vtt_groups: a text node with another layout starts a new cue; so does a STYLE START node that
+    carries a layout different from the current one (the span opens in the cue of its own layout group)"""
     groups, cur, has = [], None, False
     for n in nodes:
         if n[0] == "text":
             if has and cur is not None and truthy(posgen.tup(cur)) and geo(n[-1]) != geo(cur):
                 groups.append(cur)
             cur, has = n[-1], True
-        elif n[0] in ("break", "style"):
+        elif n[0] == "break":
             has = True
+        elif n[0] in ("style", "ustyle"):
+            tags = n[0] == "style"
+            if n[1] and has and cur is not None and truthy(posgen.tup(cur)) and n[-1] is not None \
+                    and truthy(posgen.tup(n[-1])) and geo(n[-1]) != geo(cur):
+                groups.append(cur)
+                cur, has = n[-1], tags
+            else:
+                has = has or tags
     if has:
         groups.append(cur)
     return groups
@@ -846,6 +856,19 @@ def stream_writers(ctx, res):
                      {"name": "fr", "layout": None, "caps": [{"layout": L, "nodes": [["text", "beta1", None]]}]}]}
     r = check_case("dfxp", (True, False, 640, 360), acs, printed, res, None)
     outcomes[f"dfxp:{r}"] = outcomes.get(f"dfxp:{r}", 0) + 1
+    # exhaustive: every pair of units for the x / y coordinate of a WebVTT origin (mixed ones such as "48px 10%" included),
+    # without / with an extent, relativize x fit x video size present / absent (relativize off + fit on: not generated)
+    VAL = {0: 48, 1: 2, 2: 10, 3: 3, 4: 18}
+    for ux in range(5):
+        for uy in range(5):
+            for ext in (None, ((VAL[uy], uy), (VAL[ux], ux))):
+                L = (((VAL[ux], ux), (VAL[uy], uy)), ext, None, None, None)
+                acs = {"global": None, "opts": {"inline": False, "force": None},
+                       "langs": [{"name": "en-US", "layout": None, "caps": [{"layout": L, "nodes": [["text", "alpha0", L]]}]}]}
+                for rel, fit in ((True, False), (True, True), (False, False)):
+                    for w, h in ((640, 360), (None, None)):
+                        r = check_case("vtt", (rel, fit, w, h), acs, printed, res, None)
+                        outcomes[f"vtt-unit-grid:{r}"] = outcomes.get(f"vtt-unit-grid:{r}", 0) + 1
     res["distribution"]["writer_outcomes"] = outcomes
     res["distribution"]["writer_excluded"] = "relativize off + fit on with absolute units (documented ValueError): not generated"
 
